@@ -19,6 +19,7 @@ NEW_SPECS = (
     ("fmt", (("", ()), ("X", (("fg", 32),)), ("", (("bold", True),)))),
     ("fmt", ()),
     ("str", "\u0301"),
+    ("str", "x\x9b1my"),
     ("fmt", (("\u0301", (("fg", 32),)),)),
 )
 
@@ -94,6 +95,11 @@ def shard(args):
                     acc.case(nontriv, key=(spec, ni, start, end), sample=lambda: {"f": C.show_spec(spec), "new": NEW_SPECS[ni], "start": start, "end": end})
                     acc.transitions += 1
                     check_one(acc, spec, f, fcells, snap, ni, new, news_cells[ni], start, end)
+            # the same object spliced again in a non-monotone order (state kept on the object between calls would show here)
+            ranges = [(st, en) for st in range(0, n + 3) for en in [None] + list(range(st, n + 3))]
+            for start, end in ranges[::-1][::2] + ranges[3::5]:
+                acc.transitions += 1
+                check_one(acc, spec, f, fcells, snap, ni, new, news_cells[ni], start, end)
             # append(x) == splice at the end
             case = {"f": C.show_spec(spec), "new": NEW_SPECS[ni], "op": "append"}
             acc.case(True, key=(spec, ni, "append"))
